@@ -136,3 +136,20 @@ _add("C12", "in TryPass the state word is read before the retry deadline (mirror
 _add("C13", "the builders append to their result in a single loop over the loaded rules (order loaded = order enforced).")
 _add("C16", "the block error and every other field of the pooled result / context are reset on recycle.")
 _add("C17", "fixed-size records are never taken from a raw Read whose byte count is ignored; a data line is parsed only when its terminator was read (defect F24 fixed and guarded).")
+
+# ---- additions after the fourth round
+_add("C01", "GetOrCreateResourceNode never returns nil.")
+_add("C04", "the isolation slot's rule lookup answers from the enforced map alone (no short cut through other state).")
+_add("C02", "the flow slot's controller lookup answers from the enforced map alone; needStatistic agrees with the generators.")
+_add("C03", "the breaker lookup answers from the enforced map alone.")
+_add("C05", "the hotspot controller lookup answers from the enforced map alone; the rule equality used on reload is reflexive and complete (stale specific-item tables are not kept).")
+_add("C07", "the system rule lookup answers from the enforced map alone; every figure a statistic node reports is read through the node's own window view.")
+_add("C08", "MetricBucket.reset restores every field to the constructor's value unconditionally; node readers use the node's view.")
+_add("C09", "bucket reset is complete and unconditional; readers refresh the current slot while the deprecation test is strict.")
+_add("C10", "on every path on which flow.Rule.isEqualsTo answers equal the queueing limit was compared (or the behaviour is a built-in non-throttling one).")
+_add("C11", "needStatistic, interpreted for each registered (strategy, behaviour) key, agrees with what the generator binds (real vs no-op statistic).")
+_add("C13", "check-side lookups of all six modules answer from the enforced map alone; path-wise coverage of the equality functions.")
+_add("C14", "path-wise coverage of the three equality functions with a frozen field-relevance table.")
+_add("C17", "comparisons with index seconds have seconds on the other side (unit rule).")
+_add("C19", "gin: every path through the blocked branch aborts the context or hands over to the fallback.")
+_add("C20", "the outlier lookups answer from the enforced maps alone.")
